@@ -731,6 +731,28 @@ pub fn rec_c09(ch: &mut Chunker, a: &str, b: &str, a2: &str, o: &Opts) {
 
 fn gen_c09(ch: &mut Chunker, r: &mut Rng, _thorough: bool, scale: usize) {
     let ocfg = OptCfg { indents: true, custom_splitters: true, algs: &[0, 1, 2], crlf: true };
+    // stray CR / LF: under the CRLF option a lone LF or CR is ordinary text of a paragraph (a paragraph may *end* in CR),
+    // under the LF option a CR is; every short a, b over {a, space, CR, LF}
+    let small = all_strings(&['a', ' ', '\r', '\n'], 3);
+    for (i, a) in small.iter().enumerate() {
+        for (j, b) in small.iter().enumerate() {
+            if (i * 5 + j) % 11 != 0 {
+                continue;
+            }
+            let a2 = &small[(i * 7 + j * 3 + 1) % small.len()];
+            for w in [1usize, 3] {
+                let mut o = Opts::new(w);
+                o.sep = Sep::Ascii;
+                o.alg = Alg::FF;
+                o.splitter = Splitter::None;
+                o.crlf = (i + j + w) % 3 != 0;
+                if (i + j) % 4 == 0 {
+                    o.si = "> ".to_string();
+                }
+                rec_c09(ch, a, b, a2, &o);
+            }
+        }
+    }
     for i in 0..450 * scale {
         let crlf = i % 4 == 0;
         let tc = TextCfg { max_words: 5, max_paras: 2, ansi: if i % 5 == 0 { Ansi::WellFormed } else { Ansi::None }, unicode: true, ctrl: i % 7 == 0, crlf };
@@ -1237,6 +1259,14 @@ fn gen_c18(ch: &mut Chunker, r: &mut Rng, thorough: bool, scale: usize) {
             rec_c18(ch, &s, prefixes[s.len() % prefixes.len()]);
         }
     }
+    // whitespace characters that are not line breaks for str::lines() although they "look like" ones (VT, FF, NEL, LS),
+    // and a multi-byte space: every short text
+    for s in all_strings(&['a', ' ', '\u{b}', '\u{85}', '\u{2028}', '\n'], if thorough { 5 } else { 4 }) {
+        rec_dedent(ch, &s);
+        if s.len() % 3 == 0 {
+            rec_c18(ch, &s, prefixes[s.len() % prefixes.len()]);
+        }
+    }
     for i in 0..1500 * scale {
         let s = if i % 5 == 0 { gen_alpha(r, &['a', 'b', ' ', ' ', '\t', '\n', '\r', '\u{a0}', '\u{4f60}'], 16) } else { gen_margin_text(r) };
         rec_dedent(ch, &s);
@@ -1249,6 +1279,13 @@ fn gen_c19(ch: &mut Chunker, r: &mut Rng, thorough: bool, scale: usize) {
     for s in all_strings(&['a', ' ', '\t', '\n', '\r'], if thorough { 6 } else { 5 }) {
         for (k, p) in prefixes.iter().enumerate() {
             if thorough || (s.len() + k) % 3 == 0 {
+                rec_indent(ch, &s, p);
+            }
+        }
+    }
+    for s in all_strings(&['a', ' ', '\u{b}', '\u{85}', '\u{2028}', '\n'], 4) {
+        for (k, p) in prefixes.iter().enumerate() {
+            if (s.len() + k) % 4 == 0 {
                 rec_indent(ch, &s, p);
             }
         }
@@ -1298,12 +1335,23 @@ pub fn rec_c20(ch: &mut Chunker, text: &str, cols: usize, o: &Opts, lg: &str, mg
 }
 
 fn gen_c20(ch: &mut Chunker, r: &mut Rng, thorough: bool, scale: usize) {
-    let gaps = ["", "|", " | ", "\u{4f60}", "  ", "| ", " |", "\u{e9}"];
+    let gaps = ["", "|", " | ", "\u{4f60}", "  ", "| ", " |", "\u{e9}", "\u{1b}", "\u{1b}[", "\u{1b}]8;;x", "\u{1b}[1m|\u{1b}[0m"];
     let mk = |bw: bool, width: usize| {
         let mut o = Opts::new(width);
         o.bw = bw;
         o
     };
+    // zero-width characters (combining mark, DEL) at widths 0-3: the column width is clamped to 1 while the reference
+    // wrap must use the same clamped width
+    for t in all_strings(&['a', ' ', '\u{301}', '\u{7f}'], 4) {
+        for cols in 1..=2 {
+            for w in 0..4 {
+                if (t.len() + cols + w) % 2 == 0 {
+                    rec_c20(ch, &t, cols, &mk((t.len() + w) % 3 != 0, w), "", ["", "|"][w % 2], "");
+                }
+            }
+        }
+    }
     for t in all_strings(&['a', ' ', '\u{ff28}'], if thorough { 5 } else { 4 }) {
         for cols in 1..=3 {
             for w in 0..9 {
